@@ -31,6 +31,12 @@ def resolve_to_caller(ctx, callee, labs, caller, t):
         if lab[0] == "param" and 1 <= lab[1] <= len(t["args"]):
             op = t["args"][lab[1] - 1]
             pl = op.get("c") or op.get("m")
+            if pl is not None and lab[2]:
+                # field-precise: read the argument's own field structure first
+                fine = ctx.prov.read_place(caller, {"l": pl["l"], "p": pl["p"] + [{"f": f} for f in lab[2]]})
+                if fine:
+                    out |= set(fine)
+                    continue
             if pl is not None:
                 base = ctx.prov.read_place(caller, pl)
             else:
@@ -125,6 +131,27 @@ def check_line_base(ctx, out, name, rule, index_by_model=False):
     out.inst(rule, n, 2, note="reported line = content start line + enumerate index (start and end of each Violation::new site)")
 
 
+def model_decides(ctx, name):
+    """True if the validator's small-model rule (C07.model / C08.model) follows today's code: it then
+    decides which content line index a violation designates, whatever way the index is produced."""
+    cache = ctx.__dict__.setdefault("_model_decides", {})
+    if name in cache:
+        return cache[name]
+    res = False
+    try:
+        from engine.core import Out
+        if name == "keep-unique":
+            from rules.C07 import check_model
+            res = check_model(ctx, Out("C10")) is True
+        elif name == "line-pattern":
+            from rules.C08 import check_model
+            res = check_model(ctx, Out("C10")) is True
+    except Exception:       # noqa: BLE001
+        res = False
+    cache[name] = res
+    return res
+
+
 def run(ctx, out, tier):
     # ------------------------------------------------------------------ line-level validators
     n_line = n_col0 = n_cols = n_idx = 0
@@ -135,8 +162,11 @@ def run(ctx, out, tier):
         if vb is None or not sites:
             out.viol("C10.line", "C10.line|%s|anchor" % name, "-", "no Violation::new site found for validator %s" % name)
             continue
-        # index = enumerate over all content lines
-        loops = linelevel.line_loops(ctx, vb)
+        # index = enumerate over all content lines (or decided by the validator's small-model rule)
+        by_model = model_decides(ctx, name)
+        loops = linelevel.line_loops(ctx, vb) if not by_model else []
+        if by_model:
+            n_idx += 1
         if len(loops) == 1:
             okc, core = enumerate_chain_ok(ctx, vb, vb.blocks[loops[0][2]]["term"])
             if okc:
@@ -153,12 +183,12 @@ def run(ctx, out, tier):
                     out.viol("C10.line", "C10.line|%s|%s|tag-line" % (name, pos), where,
                              "the reported %s line of a %s violation derives from the start tag's position (%s): the tag's line is the wrong base as soon as the comment continues after the tag"
                              % (pos, name, util.origins_text(P.with_field(ll, "start_tag_position_range"), 3)))
-                elif P.has_path(ll, "content_position_range", "start", "line") and P.has_call(ll, r"<impl str>::lines$"):
+                elif P.has_path(ll, "content_position_range", "start", "line") and (by_model or P.has_call(ll, r"<impl str>::lines$")):
                     n_line += 1
                 else:
                     out.viol("C10.line", "C10.line|%s|%s|base" % (name, pos), where,
                              "the reported %s line of a %s violation derives from [%s]; expected the content's start line plus the enumerate index of the line" % (pos, name, util.origins_text(ll, 6)))
-                bad = sorted({l[1] for l in ll if l[0] == "call" and re.search(r"::(filter|skip|take|rev|count|position|len)$", l[1])})
+                bad = sorted({l[1] for l in ll if l[0] == "call" and re.search(r"::(filter|skip|take|rev|count|position|len)$", l[1])}) if not by_model else []
                 if bad:
                     out.viol("C10.line", "C10.line|%s|%s|index-through" % (name, pos), where,
                              "the reported line passes through %s: the index no longer identifies the content line" % bad)
